@@ -436,18 +436,19 @@ pub fn analyze(url: &str, text: &str, check_erasure: bool) -> Result<Analysis, S
   Ok(a)
 }
 
-/// export names of a module with `export *` expanded (default excluded from stars; own names win)
-pub fn export_names(texts: &HashMap<String, String>, url: &str, seen: &mut BTreeSet<String>) -> BTreeSet<String> {
+/// export names of a module with `export *` expanded (default excluded from stars; own names win). A star target that
+/// has no text in `texts` (a module of a package without fast-check output) is looked up in `fallback` (the originals).
+pub fn export_names(texts: &HashMap<String, String>, fallback: &HashMap<String, String>, url: &str, seen: &mut BTreeSet<String>) -> BTreeSet<String> {
   let mut out = BTreeSet::new();
   if !seen.insert(url.to_string()) {
     return out;
   }
-  let Some(text) = texts.get(url) else { return out };
+  let Some(text) = texts.get(url).or_else(|| fallback.get(url)) else { return out };
   let Ok(a) = analyze(url, text, false) else { return out };
   out.extend(a.exports.iter().cloned());
   for s in &a.stars {
     if let Ok(t) = ModuleSpecifier::parse(url).unwrap().join(s) {
-      let sub = export_names(texts, t.as_str(), seen);
+      let sub = export_names(texts, fallback, t.as_str(), seen);
       out.extend(sub.into_iter().filter(|n| n != "default"));
     }
   }
@@ -488,7 +489,7 @@ pub fn project(world: &FcWorld, g: &ModuleGraph) -> Value {
         continue;
       };
       let orig = analyze(&url, &originals[&url], false);
-      let orig_exports: Vec<String> = export_names(&originals, &url, &mut BTreeSet::new()).into_iter().collect();
+      let orig_exports: Vec<String> = export_names(&originals, &originals, &url, &mut BTreeSet::new()).into_iter().collect();
       let orig_top: Vec<String> = orig.as_ref().map(|a| a.top_level.iter().cloned().collect()).unwrap_or_default();
       let dif: Vec<String> = orig.as_ref().map(|a| a.default_ifaces.iter().cloned().collect()).unwrap_or_default();
       let mut v = json!({"pkg": p.name, "slot": "none", "origExports": orig_exports, "origTop": orig_top, "defaultIfaces": dif});
@@ -536,7 +537,7 @@ pub fn project(world: &FcWorld, g: &ModuleGraph) -> Value {
               v["retained"] = json!(a.top_level.iter().cloned().collect::<Vec<_>>());
               v["kinds"] = json!(a.decl_kinds);
               v["origKinds"] = json!(orig.as_ref().map(|o| o.decl_kinds.clone()).unwrap_or_default());
-              let em: Vec<String> = export_names(&emitted, &url, &mut BTreeSet::new()).into_iter().collect();
+              let em: Vec<String> = export_names(&emitted, &originals, &url, &mut BTreeSet::new()).into_iter().collect();
               v["emitExports"] = json!(em);
               // identifiers that referred to a top-level declaration/import of the original but are unresolved now
               let dangling: Vec<String> = orig.as_ref().map(|o| a.unresolved.iter().filter(|n| o.top_level.contains(*n)).cloned().collect()).unwrap_or_default();
@@ -746,8 +747,17 @@ pub fn gen_world(rng: &mut StdRng, slow: f64) -> FcWorld {
             _ => {}
           }
         }
-        if g.rng.gen_bool(0.3) {
+        if g.rng.gen_bool(0.4) {
           src.push_str("export default class DefaultThing { v: number = 1; }\n");
+        }
+        // another workspace member re-exporting this member's entrypoint (analysed before or after it)
+        if layout.len() > 1 && g.rng.gen_bool(0.35) {
+          let other = layout.iter().find(|(o, _)| o != pk).map(|(o, _)| o.clone()).unwrap();
+          match g.rng.gen_range(0..3) {
+            0 => src.push_str(&format!("export * from \"../{other}/mod.ts\";\n")),
+            1 => src.push_str(&format!("export * as other_{other} from \"../{other}/mod.ts\";\n")),
+            _ => src.push_str(&format!("import * as ns_{other} from \"../{other}/mod.ts\";\nexport const viaNs_{pk}: typeof ns_{other} = null as any;\n")),
+          }
         }
         if g.rng.gen_bool(0.3) {
           src.push_str("console.log(\"side effect\");\n");
@@ -799,7 +809,9 @@ fn w_name(w: &FcWorld, pi: usize) -> String {
 }
 
 /// Renders an abstract program of FastCheck.tla (see MC_FastCheck) into one workspace package `p1` with entry `<entry>.ts`.
-pub fn render_program(prog: &Value) -> FcWorld {
+pub fn render_program(prog: &Value, idx: usize) -> FcWorld {
+  // default-exported declarations are classes; every fifth program renders them as interfaces (the shape of finding F22)
+  let default_as_interface = idx % 5 == 0;
   let strs = |v: &Value| -> Vec<String> { v.as_array().map(|a| a.iter().filter_map(|x| x.as_str().map(|s| s.to_string())).collect()).unwrap_or_default() };
   let mods = strs(&prog["mods"]);
   let decls = strs(&prog["decls"]);
@@ -831,17 +843,28 @@ pub fn render_program(prog: &Value) -> FcWorld {
     }
     for d in &decls {
       let name = local(m, d);
-      let mut fields = String::new();
+      let mut ref_fields = String::new();
       for (i, r) in strs(&prog["refs"][m][d]).iter().enumerate() {
         let ty = if decls.contains(r) { local(m, r) } else { r.clone() };
-        fields.push_str(&format!(" r{i}: {ty};"));
+        ref_fields.push_str(&format!(" r{i}: {ty};"));
       }
+      let mut mod_fields = String::new();
+      for (i, t) in strs(&prog["modrefs"][m][d]).iter().enumerate() {
+        mod_fields.push_str(&format!(" w{i}: typeof import(\"./{t}.ts\");"));
+      }
+      // the order in which a declaration mentions things decides the order of the tracer's requests: use both orders
+      let fields = if idx % 2 == 0 { format!("{ref_fields}{mod_fields}") } else { format!("{mod_fields}{ref_fields}") };
       let kw = match prog["exported"][m][d].as_str().unwrap_or("-") {
         "-" => "",
         "default" => "export default ",
         _ => "export ",
       };
-      src.push_str(&format!("{kw}interface {name} {{{fields} }}\n"));
+      if kw == "export default " && !default_as_interface {
+        let cfields = fields.replace(";", " = null as any;");
+        src.push_str(&format!("{kw}class {name} {{{cfields} }}\n"));
+      } else {
+        src.push_str(&format!("{kw}interface {name} {{{fields} }}\n"));
+      }
     }
     files.insert(format!("{m}.ts"), src);
   }
@@ -921,11 +944,34 @@ pub fn render_shape(shape: &Value) -> FcWorld {
         "tpl" => format!("export {kind} subject = `text`;\n"),
         "destruct" => format!("export {kind} {{ a: subject }} = helper2();\n"),
         "arrow-ok" => format!("export {kind} subject = (p: number): number => p;\n"),
+        "arr-call-first" => format!("export {kind} subject = [helper(), null];\n"),
+        "arr-call-last" => format!("export {kind} subject = [null, helper()];\n"),
+        "arr-call-mid" => format!("export {kind} subject = [1, helper(), 2];\n"),
+        "arr-nested-call" => format!("export {kind} subject = [[helper(), 0], 1];\n"),
+        "obj-call" => format!("export {kind} subject = {{ a: 1, b: helper() }};\n"),
+        "obj-call-first" => format!("export {kind} subject = {{ b: helper(), a: 1 }};\n"),
+        "obj-method" => format!("export {kind} subject = {{ a: 1, m() {{ return 1; }} }};\n"),
+        "cond-call" => format!("export {kind} subject = true ? helper() : 1;\n"),
+        "tpl-call" => format!("export {kind} subject = `a${{helper()}}b`;\n"),
+        "unary-call" => format!("export {kind} subject = -helper();\n"),
+        "bin-call-left" => format!("export {kind} subject = helper() + 1;\n"),
+        "paren-call" => format!("export {kind} subject = (helper());\n"),
+        "spread-call" => format!("export {kind} subject = [...[helper()], 1];\n"),
+        "member-lit" => format!("export {kind} subject = Number.MAX_VALUE;\n"),
+        "tagged-tpl" => format!("export {kind} subject = String.raw`x`;\n"),
+        "seq" => format!("export {kind} subject = (1, 2);\n"),
+        "assign" => format!("let other: number = 0;\nexport {kind} subject = (other = 1);\n"),
+        "optchain" => format!("export {kind} subject = helper2()?.a;\n"),
+        "class-expr" => format!("export {kind} subject = class {{}};\n"),
+        "await-call" => format!("export {kind} subject = await helper();\n"),
         _ => String::new(),
       }
     }
     "member" => {
       let m = match s("member").as_str() {
+        "prop-arr-call-first" => "x = [helper(), 0];",
+        "static-prop-arr-call-first" => "static x = [new Map<string, number>(), 0];",
+        "method-default-arr-call-first" => "m(times = [helper(), 0]): void { helper(); }",
         "prop-ann" => "x: number = helper();",
         "prop-lit" => "x = 1;",
         "prop-call" => "x = helper();",
